@@ -6,7 +6,7 @@ Definition s_prune_shell := prune_shell is0_s same_s.
 Definition s_prune_basis := prune_basis is0_s same_s String.eqb.
 Definition s_uncontract_spdf := uncontract_spdf (N := string).
 Definition s_uncontract_general := uncontract_general is0_s same_s String.eqb.
-Definition s_uncontract_segmented := uncontract_segmented lit_unc_seg_one.
+Definition s_uncontract_segmented := uncontract_segmented same_s lit_unc_seg_one.
 Definition s_make_general := make_general is0_s same_s String.eqb lit_make_general_zero.
 Definition s_remove_free_primitives := remove_free_primitives is0_s same_s String.eqb.
 Definition s_optimize_general := optimize_general is0_s same_s String.eqb lit_make_general_zero lit_optimize_zero.
